@@ -299,6 +299,9 @@ class Report:
             tail = "" if v["kind"] == "oracle" else " no-failing-input-found"
             print("VIOLATION property=%s replay=%s%s" % (self.prop, path, tail))
             return 1
+        stale = os.path.join(VERIF, "replays", "%s-%d.json" % (self.prop, self.seed))
+        if os.path.exists(stale):
+            os.remove(stale)
         return 0
 
 
